@@ -2,7 +2,7 @@
 # tools/mutscan_files.sh [max-per-file] [jobs]: per-file mutation scan over every source file some property is anchored in;
 # a mutant counts as killed when ANY check anchored in that file reports a violation. Prints what is not killed.
 cd "$(dirname "$0")/.."
-MAX=${1:-10}; JOBS=${2:-4}
+MAX=${1:-10}; JOBS=${2:-4}; SKIP=${3:-0}
 FILES=$(python3 - <<'P'
 import json,collections
 m=collections.OrderedDict()
@@ -13,7 +13,9 @@ for l in open('properties.jsonl'):
 print(' '.join(m))
 P
 )
+N=0
 for F in $FILES; do
+  N=$((N+1)); [ $N -le $SKIP ] && continue
   [ -f /repo/$F ] || continue
   python3 tools/mutscan.py file:$F --max $MAX --jobs $JOBS --tests 2>&1 | grep -E "^SURVIVED|^inconclusive|^check-timeout|^SUMMARY"
 done
